@@ -48,6 +48,7 @@ Step ==
                [] e.t = "nl" ->
                     IF TokAt(j) = "NL" THEN /\ i' = i + 1 /\ j' = j + 1 /\ pend' = FALSE /\ soft' = FALSE /\ UNCHANGED <<rec, st, nosp>>
                     ELSE Stop(FALSE, "println did not end the line")
+               [] e.t = "nop" -> i' = i + 1 /\ UNCHANGED <<rec, j, pend, soft, st, nosp>>      \* (placeholder of a script without output)
                [] e.t = "out" ->
                     LET sp == TokAt(j) = "SP"
                         k  == IF sp THEN j + 1 ELSE j
